@@ -318,7 +318,7 @@ func TestC09(t *testing.T) {
 		ID:   "C09",
 		Rule: "rule sets of 1..7 rules (patterns from the regex generator: literals, classes, bounded/unbounded repetition, alternation, named patterns through a Resolver, (?i) rules; 75% over a 9-symbol alphabet so that rules collide), explicit priorities -1..2, 1..3 start conditions with per-rule membership, shared actions, rune and byte mode; compiled with lex.Compile(allowBacktracking=true); kept when it compiles. For every start condition, 44 inputs built from the rules' own alphabets (repeated symbols, truncations that split multi-byte runes, 0xff/0x80 bytes) are scanned with Tables.Scan and compared with a set-based matcher per rule: longest match, then highest priority, else the invalid-token length = longest viable prefix. Non-trivial: the scan fell back from a longer viable prefix to an accepted one with a checkpoint table present, or several rules matched the same input; distinct by rules JSON.",
 		Assume: []string{"{eoi} patterns are not generated", "inputs on which two rules of equal priority and different actions match the same longest prefix are outside the domain (counted)"},
-		Quick: 15000, Thorough: 150000,
+		Quick: 15000, Thorough: 600000,
 		Gen:   c09Gen,
 		Check: c09Check,
 	}
